@@ -654,7 +654,7 @@ class Node:
                 r_list += self.tcp_sockets
             if self.sctp_sockets:
                 r_list += self.sctp_sockets
-            for conn_id, conn_socket in self.peer_sockets.items():
+            for conn_id, conn_socket in list(self.peer_sockets.items()):
                 conn = self.connections.get(conn_id)
                 if not conn:
                     continue
@@ -1316,7 +1316,7 @@ class Node:
         # have won the election and must close our earlier initiated
         # connections. If this is the only connection with the peer, nothing to
         # do.
-        other_connections = [peer for peer in self.connections.values()
+        other_connections = [peer for peer in list(self.connections.values())
                              if peer.origin_host == cer_origin_host]
         if other_connections:
             if self.origin_host.lower() > cer_origin_host:
@@ -1539,7 +1539,7 @@ class Node:
         """
         message_id = message.header.hop_by_hop_identifier
         waiting_host_identity = None
-        for host_identity, messages in self._peer_waiting_answer.items():
+        for host_identity, messages in list(self._peer_waiting_answer.items()):
             if message_id in messages:
                 waiting_host_identity = host_identity
                 break
@@ -1551,7 +1551,7 @@ class Node:
         del self._peer_waiting_answer[waiting_host_identity][message_id]
 
         conn = None
-        for connected_peer in self.connections.values():
+        for connected_peer in list(self.connections.values()):
             if connected_peer.host_identity == waiting_host_identity:
                 conn = connected_peer
                 break
@@ -1743,7 +1743,7 @@ class Node:
         if force:
             self.logger.warning("forced close, sockets may not close cleanly")
         else:
-            for conn in self.connections.values():
+            for conn in list(self.connections.values()):
                 if conn.state in PEER_READY_STATES:
                     self.send_dpr(conn)
             abort_wait = False
@@ -1753,7 +1753,7 @@ class Node:
                     self.logger.error(
                         "shutdown timeout reached, forcing connections to close")
                     break
-                for peer in self.connections.values():
+                for peer in list(self.connections.values()):
                     self.logger.debug(f"{peer} waiting for closure")
                 time.sleep(1)
 
